@@ -233,6 +233,14 @@ func leavesOf(v ssa.Value, out map[ssa.Value]bool, depth int) {
 	case *ssa.ChangeType:
 		leavesOf(x.X, out, depth+1)
 		return
+	case *ssa.Call:
+		// builtin min / max: bounded when every operand is
+		if bi, ok := x.Call.Value.(*ssa.Builtin); ok && (bi.Name() == "max" || bi.Name() == "min") {
+			for _, a := range x.Call.Args {
+				leavesOf(a, out, depth+1)
+			}
+			return
+		}
 	}
 	out[v] = true
 }
@@ -406,7 +414,7 @@ func (cc *capCtx) leafCapped(l ssa.Value, at *ssa.BasicBlock, depth int) (res bo
 		}
 		return true
 	}
-	if depth > 4 {
+	if depth > 8 {
 		cc.why = "call depth exceeded while looking for a cap of " + l.Name()
 		return false
 	}
